@@ -21,6 +21,15 @@ Interpretation choices (soundness first):
   rows x columns read back, i.e. exactly one delimiter row directly after the first line.  Wrappers / row groups
   are not placed where they would cut a merged cell (HTML and ODF table models); thead after tbody is not
   generated (non-conforming HTML, presentation-dependent row order).
+* Documents are sequences of blocks (family S): every sequence of 2-3 blocks of kinds table / heading / list /
+  paragraph with at least one table, plus three 4-block ones - tables next to each other (two and three in a
+  row), next to every other block kind, first and last.  Every source table must read back as its OWN pipe
+  table (GFM block separation: a blank line or another block between two tables).  Per format: consecutive
+  w:tbl (no paragraph between), consecutive table:table, adjacent <table>, several graphic frames on one slide
+  AND one table per consecutive slide, one sheet per table, adjacent model.Table elements.  The tables of one
+  document have different cell words (row numbers shifted by `off`).  Not generated: two lists in a row
+  (Markdown cannot keep two adjacent lists of the same marker apart; the property is about items) and a
+  table nested in a table cell (a pipe table cannot nest; what the outer cell should then hold is not stated).
 * A header-less table may use its first row as the Markdown header row (GFM has no header-less table); what is
   required is that the grid reads back with the same rows once.
 * Heading level = clamp(level + offset, 1, min(max, 6)) for max in 1..6 (the statement's range; max = 0 "unset"
@@ -50,7 +59,8 @@ EVIDENCE = dict(
          "padded) at every position x six header markings of the source (none, first, first two, first three, a middle row, "
          "all rows; per format: w:tblHeader, table-header-rows, thead/th/tbody/tfoot, IsHeader, firstRow) x every fitting "
          "2-cell/4-cell merge, small tables over the full "
-         "cell alphabet, 540 heading cases (9 levels x offsets -2..7 x max 1..6), every well-formed list shape <= 5 items "
+         "cell alphabet, block sequences (every 2-3 block sequence over table/heading/list/paragraph with a table, tables "
+         "adjacent to each other and to every other kind, first and last), 540 heading cases (9 levels x offsets -2..7 x max 1..6), every well-formed list shape <= 5 items "
          "x depth <= 3 x kinds, 24 combined documents (front matter, TOC, offsets) - enumerated by TLC with the expected "
          "parsed-back structure computed by Markdown.tla; each is rendered by every tabula Markdown writer that can express "
          "it and parsed back by the harness's GFM reader (itself validated on the spec's reference rendering of every case). "
@@ -86,7 +96,7 @@ def run(ctx):
     # the negative controls and the history model run side by side with the large enumeration
     pool = ThreadPoolExecutor(max_workers=8)
     side = [pool.submit(ctx.tlc, "MarkdownMC", "Markdown_mc_impl_%s.cfg" % v, expect_violation=True, workers=2,
-                        extra=["-noGenerateSpecTE"]) for v in ("esc", "hdr", "hdrlast", "merge")]
+                        extra=["-noGenerateSpecTE"]) for v in ("esc", "hdr", "hdrlast", "merge", "sep")]
     side.append(pool.submit(ctx.tlc, "MdHistoryMC", "MdHistory_mc_impl.cfg", expect_violation=True, workers=2,
                             extra=["-noGenerateSpecTE"]))
     hruns = [pool.submit(ctx.tlc, "MdHistoryMC", cfg, workers=4, collect=True, timeout=1800, count=False)
